@@ -182,6 +182,7 @@ def run_job(job, workdir):
         res["reason"] = "no result section (rc=%d): %s" % (rc, alltext[-2000:])
         return res
     reach_failed = False
+    reach_missed = []  # every `reach[:label]` point of a harness must be reachable (each must FAIL)
     unwinding_failed = False
     failed = []
     unknown = []
@@ -196,6 +197,8 @@ def run_job(job, workdir):
             ob["vacuity_guard"] = True
             if ob["status"] == "FAILURE":
                 reach_failed = True
+            else:
+                reach_missed.append(desc)
         elif ob["status"] == "FAILURE":
             if "unwinding assertion" in desc or "recursion unwinding" in desc:
                 unwinding_failed = True
@@ -215,6 +218,10 @@ def run_job(job, workdir):
         res["unknown_obligations"] = len(unknown)
     if unwinding_failed:
         res["reason"] = "unwinding assertion failed (bound too small)"
+        return res
+    if reach_failed and reach_missed:
+        res["status"] = "undecided"
+        res["reason"] = "VACUOUS: reach point(s) not reachable: " + ", ".join(reach_missed[:5])
         return res
     if not reach_failed:
         res["status"] = "undecided"
